@@ -44,6 +44,11 @@ func LoadContracts(repo string) (*Contracts, error) {
 			return nil, err
 		}
 	}
+	defer func() {
+		for _, n := range strings.Fields(cs.Consts["opaquetypes"]) {
+			OpaqueTypes[n] = true
+		}
+	}()
 	ms, _ := filepath.Glob(filepath.Join(TrustedDir, "*.spec"))
 	sort.Strings(ms)
 	for _, m := range ms {
